@@ -6,7 +6,7 @@
 //            import(string) and operator>> (fresh object and a *used* object of another shape), mpz_ptr >>, TMCG_Bigint >>.
 //            Shapes (k,w) in {(1,1),(2,3),(3,2)} quick, + (32,10),(1,10),(32,1) thorough; stacks of 3 (quick) / 3,8 (thorough).
 //   key    : TMCG_PublicKey / TMCG_SecretKey import + check() (+ sign/verify/encrypt/decrypt when accepted), operator>>,
-//            key ring line, PublicKey::verify on mutated signatures, SecretKey::decrypt on mutated ciphertexts, and the
+//            PublicKey::verify on mutated signatures, SecretKey::decrypt on mutated ciphertexts, and the
 //            "re-signed" variants in which the harness repairs the self-signature after the mutation so that the NIZK
 //            parser behind the signature check is reached (704-bit moduli; negated-modulus key as an extra seed).
 //   ctor   : stream constructors + CheckGroup(): BarnettSmartVTMF_dlog, _GroupQR, PedersenCommitmentScheme(n), GrothSKC(n),
@@ -439,16 +439,6 @@ static void fam_key(std::vector<Target> &V)
 			is >> k;
 			if (is.fail()) return 0;
 			return k.check() ? 1 : 0;
-		});
-		TMCG_PublicKeyRing ring(2);
-		ring.keys[0] = pub0, ring.keys[1] = pub0;
-		add(V, "pubkeyring.istream", "plain704x2", exp_str(ring) + "\n", Cs, [](const std::string &in) {
-			std::istringstream is(in);
-			TMCG_PublicKeyRing r(2);
-			is >> r;
-			if (is.fail()) return 0;
-			for (size_t i = 0; i < r.keys.size(); i++) if (!r.keys[i].check()) return 0;
-			return 1;
 		});
 	}
 	// signatures and ciphertexts against valid keys
